@@ -474,8 +474,13 @@ def rule_errnorm(repo, tier):
     res = RuleResult('C18.NORM', 'reprojerr: every reduced per-pixel error is a norm of the difference (components made non-negative before the reduction)', floor=1)
     f = repo.func(GEO, 'reprojerr')
     n = 0
+    from ..expr import inline_straight
     for r in [x for x in ast.walk(f.node) if isinstance(x, ast.Return) and x.value is not None]:
         v = r.value
+        if isinstance(v, ast.Name):            # `_ret = E; return _ret`: the closest assignment above the return
+            defs = [a for a in ast.walk(f.node) if isinstance(a, ast.Assign) and a.lineno <= r.lineno and any(isinstance(t, ast.Name) and t.id == v.id for t in a.targets)]
+            if defs:
+                v = max(defs, key=lambda a: a.lineno).value
         if isinstance(v, ast.Call) and isinstance(v.func, ast.Attribute) and v.func.attr in ('sum', 'mean', 'norm', 'amax', 'max'):
             n += 1
             inner = v.func.value
